@@ -107,7 +107,12 @@ INCLUDE_ARGS = ["conf:site.conf", "zope://h/x.conf", "svn+ssh://h/x", "mailto:a@
                 "package:ZConfig.nosuch9:component.xml", "http://[x", "http://[::1", "file:///%00", "x%00y", "ftp://",
                 "x#frag", "#", "file:", "file://", "//h/x", "\\\\h\\x", "c:x", "C:\\x", "a b", "%41", "?q",
                 "nosuch.conf", "sub/", ".", "..", "/", "file:///", "data:,k%20v", "x:", ":x", "1:2",
-                "http://[x#y", "[#", "//[x#f", "http://h/p#f", "x#", "a#b#c", "[", "]:", "http://]", "//[", "http://[::1]#", "file://[/x#y"]
+                "http://[x#y", "[#", "//[x#f", "http://h/p#f", "x#", "a#b#c", "[", "]:", "http://]", "//[", "http://[::1]#", "file://[/x#y",
+                # authorities the HTTP client refuses before any connection is made (ports that are not numbers, blanks
+                # and control characters in the host), ports out of range, empty hosts: no network is needed for any
+                "http://localhost:abc/x", "https://localhost:x/", "http://a b/x", "http://localhost:80:90/x",
+                "http://localhost:/x", "http://:80/x", "http://localhost:99999/x", "http://u@localhost:z/x",
+                "http://loc\x7falhost/x", "https://[::1]:p/x", "ftp://localhost:abc/x", "http://localhost:1e3/x"]
 
 
 def include_arg_cases(ctx, base):
